@@ -222,7 +222,7 @@ macro_rules! c13_step {
 // =====================================================================
 
 // @family prop=C14,C17 name=c14_dead_band macro=c14_dead_band n=6 quick=1,2 thorough=all timeout=1500 stub=1
-// @about slice = sample rate as above: processor with arbitrary one-pole coefficients in effect for an arbitrary cached time c in [0,10] (or the power-on marker -1), one set_time(t) for any f32 t in [0, 12]: if |t - c| <= 0.05 the call is ignored and nothing changes (coefficients bit-identical, time in effect unchanged); otherwise cached_t = t and the new coefficients are a one-pole low-pass with pole in [0,1); t < 2/fs asks tan for exactly the argument new() uses for the fastest response (and that response has pole <= 0.25: an error shrinks below 2^-16 within 8 samples); t > 10 asks for exactly the argument of t = 10
+// @about slice = sample rate as above: processor with arbitrary one-pole coefficients in effect for an arbitrary cached time c in [0,10] (or the power-on marker -1), one set_time(t) for any f32 t in [0, 12]: if |t - c| <= 0.05 (don't-care band 1e-6 for the f32 subtraction) the call is ignored and nothing changes (coefficients bit-identical, time in effect unchanged); otherwise cached_t = t and the new coefficients are a one-pole low-pass with pole in [0,1); t < 2/fs asks tan for exactly the argument new() uses for the fastest response (and that response has pole <= 0.25: an error shrinks below 2^-16 within 8 samples); t > 10 asks for exactly the argument of t = 10
 macro_rules! c14_dead_band {
     ($name:ident, $k:expr) => {
         #[kani::proof]
@@ -250,11 +250,11 @@ macro_rules! c14_dead_band {
             gp.set_time(t);
             let new = coeffs_of(&mut gp);
             let d = (t as f64 - c as f64).abs();
-            if d <= 0.05 - 1.0e-7 {
+            if d <= 0.05 - 1.0e-6 {
                 vassert!(gp.cached_t == c && new.a1.to_bits() == old.a1.to_bits() && new.b0.to_bits() == old.b0.to_bits(),
                     "C14/set_time/ignored-within-0.05s-of-time-in-effect");
             }
-            if d > 0.05 + 1.0e-7 {
+            if d > 0.05 + 1.0e-6 {
                 vassert!(gp.cached_t == t, "C14/set_time/honoured-beyond-0.05s");
                 vassert!(legal_range(&new), "C13/set_time/coefficients-are-a-one-pole-lowpass-with-pole-in-[0,1)");
                 let arg = unsafe { TAN_LAST_ARG };
